@@ -123,6 +123,8 @@ func c13Check(c c13Case) error {
 		clearLogs()
 		probes = append(probes, op.Start, op.End)
 		switch op.Kind {
+		case "inspect":
+			_ = rig.Safe(func() error { _ = b.String(); _ = fmt.Sprint(b); return nil })
 		case "copy":
 			// Bus is used as a value (emulator.System embeds one): a copy is an independent bus with the same routing
 			nb := new(bus.Bus)
@@ -350,6 +352,9 @@ func c13Gen(t *rapid.T) c13Case {
 		if i == copyAt {
 			c.Ops = append(c.Ops, c13Op{Kind: "copy"})
 		}
+		if rapid.IntRange(0, 9).Draw(t, "inspect") == 0 {
+			c.Ops = append(c.Ops, c13Op{Kind: "inspect"}) // the bus is printed in between (String, %v): nothing may change
+		}
 		cur = rapid.IntRange(0, len(anchors)-1).Draw(t, "anchor")
 		switch k := rapid.IntRange(0, 11).Draw(t, "op"); {
 		case k <= 3:
@@ -512,10 +517,12 @@ func c13RealCheck(c c13RealCase) error {
 // a range attached at the start, a hole and the window itself are probed on the way and around the 2^16-th call.
 func c13LongCheck() error {
 	b, _ := bus.New()
-	st := []*c13Stub{{id: 0, w: map[uint32]byte{}}, {id: 1, w: map[uint32]byte{}}, {id: 2, w: map[uint32]byte{}}}
+	st := []*c13Stub{{id: 0, w: map[uint32]byte{}}, {id: 1, w: map[uint32]byte{}}, {id: 2, w: map[uint32]byte{}}, {id: 3, w: map[uint32]byte{}}}
 	if err := b.Attach(st[2], "fixed", 0x001000, 0x001FFF); err != nil {
 		return err
 	}
+	// the window goes round three memories, so that any two probes 256 (or 65536) Attach calls apart see different owners
+	owner := func(i int) *c13Stub { return st[[]int{0, 1, 3}[i%3]] }
 	probe := func(i int, own *c13Stub) error {
 		for _, p := range []struct {
 			a   uint32
@@ -543,14 +550,24 @@ func c13LongCheck() error {
 				return fmt.Errorf("after %d Attach calls EaDump($003FFC,$004003) position %d holds %02x, want %02x", i, j, v, want)
 			}
 		}
+		// the last access of a probe is one inside the window (the next probe's first access is the same address)
+		if got := b.EaRead(0x004003); got != own.peek(0x004003) {
+			return fmt.Errorf("after %d Attach calls a read of $004003 gives %02x, memory #%d attached there holds %02x", i, got, own.id, own.peek(0x004003))
+		}
 		return nil
 	}
 	for i := 1; i <= 70000; i++ {
-		if err := b.Attach(st[i&1], "window", 0x004000, 0x00400F); err != nil {
+		if err := b.Attach(owner(i), "window", 0x004000, 0x00400F); err != nil {
 			return fmt.Errorf("Attach #%d: %v", i, err)
 		}
-		if i%4099 == 0 || (i >= 65530 && i <= 65540) || i == 70000 || i == 255 || i == 256 || i == 257 {
-			if err := probe(i+1, st[i&1]); err != nil {
+		if i%4099 == 0 || (i >= 65530 && i <= 65540) || i == 70000 || i == 255 || i == 256 || i == 257 || (i >= 300 && i <= 2348 && (i-300)%256 == 0) {
+			if i >= 300 && i <= 2348 && (i-300)%256 == 0 {
+				// (first the window, before any other line is touched)
+				if got := b.EaRead(0x004003); got != owner(i).peek(0x004003) {
+					return fmt.Errorf("after %d Attach calls (256 after the previous look at it) a read of $004003 gives %02x, memory #%d attached there holds %02x", i, got, owner(i).id, owner(i).peek(0x004003))
+				}
+			}
+			if err := probe(i+1, owner(i)); err != nil {
 				return err
 			}
 		}
@@ -622,7 +639,7 @@ func init() {
 func TestC13(t *testing.T) {
 	rig.Main(t, "C13", "rapid op lists on a fresh bus.Bus with four recording memories: aligned Attach over ranges around three anchors (overlap, "+
 		"abut, nest, re-attach), misaligned Attach, single reads/writes, EaDump over 1-80 addresses at any alignment into a sentinel-filled buffer with a canary; "+
-		"model = owner per 16-byte block; a quarter of the writes are repeated (same byte, same address).  Non-trivial = the history contains an Attach followed by a read, write or dump of an attached address; distinct = hash(ops).",
+		"model = owner per 16-byte block; a quarter of the writes are repeated (same byte, same address); the bus is printed between operations; the long history looks at its window 256 Attach calls apart.  Non-trivial = the history contains an Attach followed by a read, write or dump of an attached address; distinct = hash(ops).",
 		func(r *rig.Run) {
 			ev := r.Ev
 			if rig.Shard() == 0 {
